@@ -16,7 +16,7 @@ func (dv *Router) advertDataFetch(nodeId enc.Name, seqNo uint64) {
 	// debounce; wait before fetching, then check if this is still the latest
 	// sequence number known for this neighbor
 	time.Sleep(10 * time.Millisecond)
-	if ns := dv.neighbors.Get(nodeId); ns == nil || ns.AdvertSeq != seqNo {
+	if !dv.advertDataFetchIsCurrent(nodeId, seqNo) {
 		return
 	}
 
@@ -66,6 +66,16 @@ func (dv *Router) advertDataFetch(nodeId enc.Name, seqNo uint64) {
 	if err != nil {
 		log.Warnf("advertDataFetch: failed to express Interest: %+v", err)
 	}
+}
+
+// Check (under the lock) that seqNo is still the latest known
+// sequence number for this neighbor.
+func (dv *Router) advertDataFetchIsCurrent(nodeId enc.Name, seqNo uint64) bool {
+	dv.mutex.Lock()
+	defer dv.mutex.Unlock()
+
+	ns := dv.neighbors.Get(nodeId)
+	return ns != nil && ns.AdvertSeq == seqNo
 }
 
 // Received advertisement Interest
